@@ -145,6 +145,23 @@ class Check(object):
                                "detail": err.strip()[-1500:]}
             except subprocess.TimeoutExpired:
                 problem = {"stage": "proof", "detail": "make timed out after %ds" % timeout}
+        if problem is not None:
+            # the obligation is broken and will be reported; to be able to *search for a failing input* the models,
+            # the spec and CheckLib are rebuilt over the committed reference translation of the unchanged tree
+            # (coq/ref/Src.v), so that the differential run below still has its Coq oracle
+            ref = os.path.join(COQ, "ref", "Src.v")
+            gen = os.path.join(COQ, "gen", "Src.v")
+            if os.path.exists(ref):
+                try:
+                    with open(ref) as f:
+                        reftext = f.read()
+                    with open(gen, "w") as f:
+                        f.write(reftext.replace("(* GENERATED", "(* REFERENCE COPY (search aid after a broken obligation) GENERATED", 1))
+                    m2 = subprocess.run(["make", "-j%d" % common.NPROC, "model/CheckLib.vo"], cwd=COQ, capture_output=True, text=True,
+                                        timeout=timeout)
+                    problem["oracle_rebuilt_on_reference_src"] = (m2.returncode == 0)
+                except (OSError, subprocess.TimeoutExpired):
+                    problem["oracle_rebuilt_on_reference_src"] = False
         assumptions = []
         if problem is None:
             # recompile the props file alone to read its Print Assumptions output
